@@ -1321,7 +1321,11 @@ impl Lexer<'_> {
 
                         // NOTE: this is super expensive look-ahead. If we push down
                         // trailing WS trimming to the parser, it can be avoided.
-                        if !is_macro_stat(self.cursor.as_str()) {
+                        // A %-prefixed operator (`%=`, `%^`, `%~`) is an operator like any other:
+                        // the preceding WS is insignificant and the operand may be numeric
+                        if !is_macro_eval_quotable_op(self.cursor.peek_next())
+                            && !is_macro_stat(self.cursor.as_str())
+                        {
                             // Not a delimiting statement, but a macro call
                             // Hence preceding WS is significant and we should not
                             // try lexing the preceding as a numeric literal
